@@ -26,19 +26,22 @@ def parse_demo(seed):
     cmds = [re.sub(r'^.*?(go test)', r'\1', c) for c in cmds]
     cmds = [re.sub(r'^cd lib && ', '', c) for c in cmds]
     return files, cmds
+REPO = '/repo'
 def detect(seed):
-    rc, out = sh(f'git -C /repo apply --check {seed}/patch.diff')
+    # SEED_EVAL_REPO=<scratch worktree of /repo at HEAD>: used while something else (the stable suite) runs in /repo
+    R = os.environ.get('SEED_EVAL_REPO', REPO)
+    rc, out = sh(f'git -C {R} apply --check {seed}/patch.diff')
     mode = ''
     if rc != 0:
-        rc, out = sh(f'git -C /repo apply --3way --check {seed}/patch.diff')
+        rc, out = sh(f'git -C {R} apply --3way --check {seed}/patch.diff')
         mode = '--3way'
         if rc != 0:
             return {'seed': seed, 'applies': False, 'why': out[-400:]}
-    sh(f'git -C /repo apply {mode} {seed}/patch.diff')
+    sh(f'git -C {R} apply {mode} {seed}/patch.diff')
     try:
-        rc, out = sh('bin/sdbcheck -property all -no-evidence -verif /verif', cwd='/verif', timeout=1200)
+        rc, out = sh(f'bin/sdbcheck -property all -no-evidence -verif /verif -repo {R}', cwd='/verif', timeout=1200)
     finally:
-        sh('git -C /repo reset -q HEAD -- . ; git -C /repo checkout -- .')
+        sh(f'git -C {R} reset -q HEAD -- . ; git -C {R} checkout -- .')
     fired = sorted(set(re.findall(r'^(?:violated|UNDECIDED) (\S+) \[([^\]]+)\]', out, re.M)))
     props = sorted(set(re.findall(r'^VIOLATION property=(\S+)', out, re.M)))
     return {'seed': seed, 'applies': True, 'violation_properties': props, 'fired': [f'{a} [{b}]' for a, b in fired]}
